@@ -60,7 +60,13 @@ pub struct Session {
 }
 
 fn look_alike(rng: &mut Rng, tag: &str) -> String {
-    match rng.below(7) {
+    let num: u32 = tag[1..].parse().unwrap_or(0);
+    match rng.below(11) {
+        // the same number in another spelling is another tag
+        7 => format!("A{}", num),
+        8 => format!("A0{}", &tag[1..]),
+        9 => format!("A{:0w$}", num, w = 1 + rng.below(8)),
+        10 => format!("a{}", num),
         0 => tag.to_ascii_lowercase(),
         1 => tag[..tag.len() - 1].to_string(),
         2 => format!("{}0", tag),
@@ -90,6 +96,10 @@ pub fn gen_session(rng: &mut Rng, big_args: bool) -> Session {
     let mut server: Vec<u8> = vec![];
     let start_tag = 1; // a fresh client
     let end_mode = rng.below(6); // how the server stream ends
+    // a chatty server: tens of responses for one command, arriving in whole bursts with the transport always ready
+    let chatty = rng.chance(1, 10);
+    // a backlog: a long command abandoned while the transport does not take it, then the next command
+    let backlog = big_args && rng.chance(1, 8);
     for k in 0..ncmd {
         let tag = format!("A{:04}", (start_tag + k) % 10000);
         let args: Vec<u8> = match rng.below(8) {
@@ -108,8 +118,10 @@ pub fn gen_session(rng: &mut Rng, big_args: bool) -> Session {
             _ => Command::from(CommandBuilder::fetch().num(1 + rng.below(9) as u32).attr(imap_proto::types::Attribute::Uid)).args,
         };
         // server side for this command
-        for _ in 0..rng.below(6) {
-            match rng.below(if big_args { 7 } else { 5 }) {
+        let nresp = if chatty { 12 + rng.below(50) } else { rng.below(6) };
+        for _ in 0..nresp {
+            let kinds = if chatty { 1 + rng.below(5) } else if big_args { 7 } else { 5 };
+            match rng.below(kinds) {
                 0 => {
                     let la = look_alike(rng, &tag);
                     server.extend(completion(rng, &la))
@@ -139,7 +151,7 @@ pub fn gen_session(rng: &mut Rng, big_args: bool) -> Session {
         } else {
             server.extend(completion(rng, &tag));
         }
-        let polls = if rng.chance(1, 6) { rng.below(5) } else { 40 };
+        let polls = if rng.chance(1, 6) { rng.below(5) } else { 40 + nresp };
         cmds.push(Cmd { args, polls });
     }
     match end_mode {
@@ -159,8 +171,8 @@ pub fn gen_session(rng: &mut Rng, big_args: bool) -> Session {
     let mut reads = vec![];
     let mut pos = 0;
     let fine = rng.chance(1, 3) && server.len() < 20000;
-    let coarse = !fine && rng.chance(1, 3);
-    if rng.chance(1, 4) {
+    let coarse = !fine && (chatty || rng.chance(1, 3));
+    if !chatty && rng.chance(1, 4) {
         reads.push(Rd::NotReady);
     }
     while pos < server.len() {
@@ -170,7 +182,7 @@ pub fn gen_session(rng: &mut Rng, big_args: bool) -> Session {
         let end = (pos + n).min(server.len());
         reads.push(Rd::Chunk(server[pos..end].to_vec()));
         pos = end;
-        if rng.chance(1, 5) {
+        if rng.chance(1, if chatty { 40 } else { 5 }) {
             reads.push(Rd::NotReady);
         }
     }
@@ -202,6 +214,25 @@ pub fn gen_session(rng: &mut Rng, big_args: bool) -> Session {
             _ => Fl::Ok,
         });
     }
+    if backlog {
+        let k = rng.below(cmds.len());
+        let n = [8192usize, 8200, 20000][rng.below(3)];
+        let mut a = b"LOGIN \"u\" \"".to_vec();
+        a.extend(std::iter::repeat(b'x').take(n));
+        a.push(b'"');
+        cmds[k].args = a;
+        cmds[k].polls = 1 + rng.below(2);
+        let mut w = vec![];
+        // what the earlier commands need goes through, then the transport stops taking bytes for a while
+        for _ in 0..k {
+            w.push(Wr::Accept(10000));
+        }
+        for _ in 0..1 + rng.below(4) {
+            w.push(Wr::NotReady);
+        }
+        w.extend(writes);
+        writes = w;
+    }
     Session { cmds, reads, writes, flushes, server }
 }
 
@@ -217,9 +248,13 @@ pub fn run_session(s: &Session) -> (String, Vec<String>, Vec<u8>, String) {
         {
             let mut st = client.call_generic(Command { args: c.args.clone(), next_state: None });
             for _ in 0..c.polls {
+                let before = io.0.borrow().log.len();
                 let r = match Pin::new(&mut st).poll_next(&mut cx) {
                     Poll::Pending => {
-                        items.push("P".into());
+                        // Pending is only legitimate when the transport said "not ready" during this poll
+                        // (that is what registers the wake-up)
+                        let woke = io.0.borrow().log[before..].iter().any(|e| e.ends_with('P'));
+                        items.push(if woke { "P" } else { "PX" }.into());
                         continue;
                     }
                     Poll::Ready(r) => r,
